@@ -4,6 +4,7 @@ import (
 	"encoding/json"
 	"fmt"
 	"github.com/Trendyol/go-dcp/logger"
+	"github.com/couchbase/gocbcore/v10/memd"
 	"reflect"
 	"strings"
 	"time"
@@ -40,6 +41,8 @@ type BurstParams struct {
 	// HoldWait: adversarial delay of the stream's wait() goroutines (the one of the session being closed is
 	// woken by the close token) until the rebalance has finished
 	HoldWait bool `json:"hold_wait"`
+	// FailedSave: the Commit() that precedes the burst fails (the store rejects one write)
+	FailedSave bool `json:"failed_save"`
 }
 
 type notif struct {
@@ -106,6 +109,8 @@ func init() {
 				{Scenario: "c10_register", Params: mustJSON(struct{}{}), Bound: 0, Note: "leader-assigned membership: a numbering that repeats the one in effect (e.g. from the new leader after a fail-over) is not announced, so it causes no interruption"},
 				{Scenario: "c11_burst", Params: mustJSON(BurstParams{Membership: "static", MaxN: 1, Mitigation: true}), Bound: 0, Shards: 2, Note: "events waiting at the rollback-mitigation gate when the rebalance closes the stream"},
 				{Scenario: "c11_burst", Params: mustJSON(BurstParams{Membership: "dynamic", MaxN: 1, Mitigation: true}), Bound: 0, Shards: 2, Note: "events waiting at the rollback-mitigation gate when the rebalance closes the stream"},
+				{Scenario: "c11_burst", Params: mustJSON(BurstParams{Membership: "static", MaxN: 1, FailedSave: true}), Bound: 0, Shards: 2, Note: "a save that failed earlier in the session (the store rejected a write): the next rebalance still closes and re-opens the stream once"},
+				{Scenario: "c11_burst", Params: mustJSON(BurstParams{Membership: "dynamic", MaxN: 1, FailedSave: true}), Bound: 0, Shards: 2},
 				{Scenario: "c11_burst", Params: mustJSON(BurstParams{Membership: "static", MaxN: 1, CloseFault: true}), Bound: 0, Shards: 2, Note: "the reply to one close-stream request of the rebalance is lost"},
 				{Scenario: "c11_burst", Params: mustJSON(BurstParams{Membership: "dynamic", MaxN: 1, CloseFault: true}), Bound: 0, Shards: 2, Note: "the reply to one close-stream request of the rebalance is lost"},
 			}
@@ -188,7 +193,20 @@ func burstMain(p BurstParams) {
 		vrt.Failf("harness: %d events before the burst", len(e.Cons.Events))
 		return
 	}
+	if p.FailedSave {
+		// the commit before the burst is rejected by the store (one write answered with a temporary failure): the
+		// session carries on with a failed save behind it
+		failNext := true
+		c.Fault = func(r *gocbcore.SimRequest) gocbcore.SimAnswer {
+			if failNext && r.Kind == "mutatein" {
+				failNext = false
+				return gocbcore.SimAnswer{Kind: "err", Err: &gocbcore.KeyValueError{InnerError: gocbcore.ErrTemporaryFailure, StatusCode: memd.StatusTmpFail}}
+			}
+			return gocbcore.SimAnswer{}
+		}
+	}
 	e.D.Commit()
+	c.Fault = nil
 	a := newAPI(e.Cfg, e.D.GetClient(), dcpStream(e), []prometheus.Collector{}, e.bus(), dcp.VerifDiscovery(e.D))
 	readyIdx := len(hlog)
 	readyOrder := order
